@@ -373,14 +373,28 @@ fn render_pair(t: &liquid::Template, a: &Value, b: &Value) -> Outcome {
 /// Template-level laws for one pair: branches agree with the API and across twins.
 fn check_pair_templates(t: &Templates, pa: &Pv, pb: &Pv, a: &[&Value], b: &[&Value], rep: &mut RunReport) -> Option<Fail> {
     let base = compare_cmp(a[0], b[0]);
-    let want = format!("{}{}{}{}{}{}{}", base.eq as u8, base.ne as u8, base.lt as u8, base.gt as u8, base.le as u8, base.ge as u8, base.eq as u8);
+    // the six operators must take the branch the API outcome dictates; `case/when` (7th digit) only
+    // has to be the same for every construction
+    let want = format!("{}{}{}{}{}{}", base.eq as u8, base.ne as u8, base.lt as u8, base.gt as u8, base.le as u8, base.ge as u8);
     let mut first_contains: Option<Outcome> = None;
+    let mut first_case: Option<u8> = None;
     for x in a {
         for y in b {
             let got = render_pair(&t.ops, x, y);
             rep.evals += 1;
             match &got {
-                Outcome::Ok(bytes) if bytes == want.as_bytes() => {}
+                Outcome::Ok(bytes) if bytes.len() == 7 && &bytes[..6] == want.as_bytes() => {
+                    match first_case {
+                        None => first_case = Some(bytes[6]),
+                        Some(c) if c != bytes[6] => {
+                            return Some((
+                                "L8-construction-dependent".into(),
+                                format!("`case {} when {}` takes different branches for different constructions of the same values", pv_show(pa), pv_show(pb)),
+                            ));
+                        }
+                        _ => {}
+                    }
+                }
                 other => {
                     return Some((
                         "T1-template-branch-differs".into(),
